@@ -34,10 +34,34 @@ func (c *c06) bad(rule, format string, a ...interface{}) {
 	c.findings = append(c.findings, harness.Finding{Prop: "C06", Rule: rule, Detail: d, Replay: path})
 }
 
+// idFamily: member ids come in several shapes, because an id set keyed by something lossy (a prefix, a
+// fixed-size array, a printable abbreviation) only shows with ids that collide under it.
+var idFamily int
+
+func memberId(i int) primitives.MemberId {
+	switch idFamily % 5 {
+	case 0:
+		return primitives.MemberId(fmt.Sprintf("m%02d", i))
+	case 1: // 32 bytes, the first 28 shared
+		return primitives.MemberId(fmt.Sprintf("0123456789abcdef0123456789ab%04d", i))
+	case 2: // differ only by trailing zero bytes / length
+		return primitives.MemberId("node" + string(make([]byte, i)))
+	case 3: // 20-byte addresses sharing the first 3 bytes
+		return primitives.MemberId(fmt.Sprintf("abc-address-%08d", i))
+	default: // binary ids differing in the last byte of 24
+		b := make([]byte, 24)
+		for k := range b {
+			b[k] = 0xee
+		}
+		b[23] = byte(i)
+		return primitives.MemberId(b)
+	}
+}
+
 func members(ws []uint64) []interfaces.CommitteeMember {
 	out := make([]interfaces.CommitteeMember, len(ws))
 	for i, w := range ws {
-		out[i] = interfaces.CommitteeMember{Id: primitives.MemberId(fmt.Sprintf("m%02d", i)), Weight: primitives.MemberWeight(w)}
+		out[i] = interfaces.CommitteeMember{Id: memberId(i), Weight: primitives.MemberWeight(w)}
 	}
 	return out
 }
@@ -61,6 +85,7 @@ func (c *c06) vector(ws []uint64, rng *rand.Rand, kind string) {
 		return
 	}
 	c.vectors++
+	idFamily = c.vectors
 	F := new(big.Int)
 	if W.Sign() > 0 {
 		F.Div(new(big.Int).Sub(W, big.NewInt(1)), big.NewInt(3))
@@ -176,19 +201,38 @@ func (c *c06) vector(ws []uint64, rng *rand.Rand, kind string) {
 					noisy = append(noisy, base[rng.Intn(len(base))])
 				}
 			case 1:
-				noisy = append(noisy, primitives.MemberId(fmt.Sprintf("stranger%d", rng.Intn(5))))
+				switch rng.Intn(4) {
+				case 0:
+					noisy = append(noisy, primitives.MemberId(fmt.Sprintf("stranger%d", rng.Intn(5))))
+				case 1: // a member's id with something appended
+					noisy = append(noisy, append(append(primitives.MemberId{}, cm[rng.Intn(n)].Id...), byte(rng.Intn(2))))
+				case 2: // a prefix of a member's id
+					id := cm[rng.Intn(n)].Id
+					noisy = append(noisy, append(primitives.MemberId{}, id[:rng.Intn(len(id)+1)]...))
+				case 3: // ids of positions beyond the committee, same shape
+					noisy = append(noisy, memberId(n+rng.Intn(40)))
+				}
 			case 2:
 				noisy = append(noisy, primitives.MemberId(""))
 			}
 		}
 		rng.Shuffle(len(noisy), func(i, j int) { noisy[i], noisy[j] = noisy[j], noisy[i] })
-		q1, w1, _ := quorum.IsQuorum(base, cm)
+		// reference: each committee member named at least once counts once; everything else counts nothing
+		// (a generated "stranger" may coincide with a real member's id in some id families: the reference decides)
+		refW := new(big.Int)
+		for i := 0; i < n; i++ {
+			for _, id := range noisy {
+				if string(id) == string(cm[i].Id) {
+					refW.Add(refW, new(big.Int).SetUint64(ws[i]))
+					break
+				}
+			}
+		}
 		q2, w2, _ := quorum.IsQuorum(noisy, cm)
-		h1, _, _ := quorum.HasHonest(base, cm)
-		h2, _, _ := quorum.HasHonest(noisy, cm)
-		c.evals += 4
-		if q1 != q2 || w1 != w2 || h1 != h2 {
-			c.bad("duplicates-or-strangers-change-the-verdict", "weights=%v: ids %v -> (quorum=%v honest=%v weight=%d) but with duplicates/strangers %v -> (quorum=%v honest=%v weight=%d)", ws, base, q1, h1, w1, noisy, q2, h2, w2)
+		h2, w3, _ := quorum.HasHonest(noisy, cm)
+		c.evals += 2
+		if new(big.Int).SetUint64(uint64(w2)).Cmp(refW) != 0 || w2 != w3 || q2 != (refW.Cmp(Q) >= 0) || h2 != (refW.Cmp(F) > 0) {
+			c.bad("duplicates-or-strangers-change-the-verdict", "weights=%v W=%s f=%s Q=%s members=%x: id list %x -> (quorum=%v honest=%v weight=%d), reference weight of the distinct members in it is %s", ws, W, F, Q, ids(all), noisy, q2, h2, w2, refW)
 		}
 	}
 	key := fmt.Sprintf("%s|%d|%s", kind, n, W.String())
